@@ -95,6 +95,20 @@ def check_json(inp):
                 keys = list(j.keys())
                 if keys != sorted(keys) or len(set(keys)) != len(keys):
                     fails.append(failure("keys strictly ascending", keys, note=tag))
+    # an object obtained through the other public entry point (Red Hat notation) must serialise identically
+    C = obs.classes()[ver]
+    try:
+        orh = C.from_rh_vector("%.1f/%s" % (exp_scores[0], s))
+    except BaseException as e:  # noqa
+        orh = None
+        fails.append(failure("from_rh_vector(<base score>/<vector>) succeeds", "%s: %s" % (type(e).__name__, e)))
+    if orh is not None:
+        for (sort, minimal), j in docs.items():
+            jr = orh.as_json(sort=sort, minimal=minimal)
+            if list(jr.items()) != list(j.items()) and dict(jr) != dict(j):
+                diff = sorted(set((k, repr(v)) for k, v in jr.items()) ^ set((k, repr(v)) for k, v in j.items()))
+                fails.append(failure("same document as the constructor-built object", diff[:4], note="object built by from_rh_vector, sort=%s minimal=%s" % (sort, minimal)))
+                break
     # sort=True changes nothing but the order
     for minimal in (False, True):
         a, b = docs[(False, minimal)], docs[(True, minimal)]
